@@ -28,8 +28,35 @@ def run(ctx, kinds=("sub", "elim"), p_constraints=0.6, nlang=None, ncase=None, p
             args = I.gen_args(rng, spec, s)
             one_case(ctx, spec, ops, s, args, li)
         stress_cases(ctx, li, spec, ops, ncase // 2)
+        depth_cases(ctx, li, spec, ops)
         if "sub" in kinds or "elim" in kinds:
             interplay_cases(ctx, li, spec, ops, ncase // 2)
+
+
+def depth_cases(ctx, li, spec, ops):
+    """constraints between deeply nested terms, `x ** x [c^n(x) <= c^n(A)]` and `x ** x [x << {c^n(A), c^n(B)}]` for n = 8, 24, 48: the model's
+    comparisons run on fuel `4*vars + 64` (C03r_deep_constraint_unchecked, C16s_history_independent_fails: beyond that depth the model
+    gives up where the Python code keeps recursing), so agreement is claimed - and checked here - only below it"""
+    rng = ctx.rng
+    unary = [c for c in spec.compounds(builtin=False) if spec.arity(c) == 1]
+    bases = spec.bases()
+    if not unary or not bases:
+        return
+    x = ('v', 0)
+    for n in (8, 24, 48):
+        c = rng.choice(unary)
+        a = (rng.choice(bases), ())
+        b = (rng.choice(bases), ())
+
+        def deep(t):
+            for _ in range(n):
+                t = (c, (t,))
+            return t
+        for cs in ([('sub', deep(x), deep(a), False)], [('elim', x, [deep(a), deep(b)])]):
+            s = {"nvars": 1, "nwild": 0, "body": (G.FUN, (x, x)), "constraints": cs}
+            for arg in ((G.UNIT, ()), a, b, deep(b)):
+                one_case(ctx, spec, ops, s, [(0, arg)], li)
+                ctx.count("depth_cases")
 
 
 def stress_cases(ctx, li, spec, ops, n):
